@@ -2,6 +2,7 @@ package indexes
 
 import (
 	"context"
+	"errors"
 	"fmt"
 	"io"
 	"os"
@@ -196,6 +197,10 @@ func (r *SigToCid_Reader) Get(sig solana.Signature) (cid.Cid, error) {
 		key := sig[:]
 		value, err := r.deprecatedIndex.Lookup(key)
 		if err != nil {
+			if errors.Is(err, compactindex36.ErrNotFound) {
+				// callers recognise a missing key by the sentinel of the current format
+				return cid.Undef, compactindexsized.ErrNotFound
+			}
 			return cid.Undef, err
 		}
 		_, c, err := cid.CidFromBytes(value[:])
